@@ -1,20 +1,26 @@
 #!/bin/bash
-# usage: tools/run_harmless.sh <diff under harmless/>...   applies each behaviour-preserving rewrite to /repo, runs all 20 quick checks, reverts.
-# Output: one line per (rewrite, check) that is not quiet; "quiet" lines are summarised.
-cd /verif
-for D in "$@"; do
-  git -C /repo diff --quiet || { echo "/repo is dirty"; exit 2; }
-  git -C /repo apply /verif/harmless/$D || { echo "$D: does not apply"; continue; }
-  rm -rf /tmp/evidence_save_h && cp -r /verif/evidence /tmp/evidence_save_h
+# usage: tools/run_harmless.sh [<diff under harmless/>...]   applies each behaviour-preserving rewrite, runs all 20 quick checks, reverts.
+# Works on /repo, or - under `vp run --with-repo` - on the run's own copy ($VP_RUN_REPO) with the run's own copy of /verif.
+cd "$(dirname "$0")/.."
+V=$(pwd)
+R=${VP_RUN_REPO:-/repo}
+export VERIF_REPO=$R
+OUT=$V/harmless_results.txt; : > $OUT
+[ -n "${VP_RUN_REPO:-}" ] && python3 tools/setup.py > /dev/null 2>&1
+for D in ${@:-$(cd harmless; ls *.diff)}; do
+  git -C $R diff --quiet || { echo "$R is dirty"; exit 2; }
+  git -C $R apply $V/harmless/$D || { echo "$D: does not apply" | tee -a $OUT; continue; }
+  rm -rf /tmp/evidence_save_h$$ && cp -r $V/evidence /tmp/evidence_save_h$$
   LOUD=""
   for i in 01 02 03 04 05 06 07 08 09 10 11 12 13 14 15 16 17 18 19 20; do
-    ./check C$i > /tmp/run_harmless_C$i.log 2>&1; RC=$?
+    ./check C$i > /tmp/run_harmless_$$_C$i.log 2>&1; RC=$?
     if [ $RC -ne 0 ]; then
-      K="C$i"; grep '^VIOLATION' /tmp/run_harmless_C$i.log | grep -qv 'no-failing-input-found' || K="C$i(nfi)"
+      K="C$i"; grep '^VIOLATION' /tmp/run_harmless_$$_C$i.log | grep -qv 'no-failing-input-found' || K="C$i(nfi)"
       LOUD="$LOUD $K"
-      echo "  $D $K: $(grep -A1 -m1 '^VIOLATION' /tmp/run_harmless_C$i.log | sed -n 2p | cut -c1-260)"
+      echo "  $D $K: $(grep -A1 -m1 '^VIOLATION' /tmp/run_harmless_$$_C$i.log | sed -n 2p | cut -c1-260)" | tee -a $OUT
     fi
   done
-  echo "harmless=$D loud:${LOUD:- none}"
-  git -C /repo checkout -- .; rm -rf /verif/evidence; mv /tmp/evidence_save_h /verif/evidence
+  echo "harmless=$D loud:${LOUD:- none}" | tee -a $OUT
+  git -C $R checkout -- .; rm -rf $V/evidence; mv /tmp/evidence_save_h$$ $V/evidence
 done
+echo done >> $OUT
